@@ -542,6 +542,11 @@ func c05Journal(c *core.Ctx) {
 }
 
 func runC05(c *core.Ctx) {
+	if core.RaceEnabled && c.Index%12 >= 3 {
+		// the -race replica (checkptr instrumentation, 5-10x slower) runs every fourth block of the case list
+		c.Skip("not-run-on-the-race-build")
+		return
+	}
 	switch c.Index % 3 {
 	case 0:
 		c05Static(c)
